@@ -172,6 +172,9 @@ pub fn run() {
 			}
 		}
 	}
+	for (i, a) in crate::gen::universe(cx.quick()).into_iter().enumerate() {
+		cases.push((a, P { comp: (i % 3) as u8, hash: i % 2 == 1, class: "universe", ..Default::default() }));
+	}
 	par_each(cases.into_iter(), |(abs, p), local| {
 		let bytes = Arc::new(record(&abs).doc.assemble());
 		eval_case("archive", o_archive, &bytes, &p, || abs.describe(), local);
